@@ -2,7 +2,7 @@
    fixed frame around escape(raw), and unescaping it gives raw back; (b) the code-span post-processing is the
    documented rule.  Fence/indent extraction in containers needs the parser model: decided by the oracle. *)
 From Coq Require Import ZArith List Bool Lia.
-From Verif Require Import PyStr Util UtilGen UtilProofs Tmpl HtmlRender TmplCheck TmplGen C18 CodeSpan NormalizeProofs CodeGen Rx RxSub Inline Block.
+From Verif Require Import PyStr Util UtilGen UtilProofs Tmpl HtmlRender TmplCheck TmplGen C18 CodeSpan NormalizeProofs CodeGen Rx RxSub Inline Block Entry.
 Import ListNotations.
 Open Scope Z_scope.
 
@@ -86,6 +86,14 @@ Proof.
   destruct (_ && memc 96 _); [discriminate|].
   destruct (rsearch C _ (s_src st) _) as [m2|]; inversion H; subst; cbn; do 4 eexists; reflexivity.
 Qed.
+
+(* ---- known findings as theorems about the faithful model (the same inputs are replayed on the implementation by the
+   check; the correspondence run ties model and code) ---- *)
+(* KNOWN FINDING leading-tab-in-container, reproduced by the model: the tab that starts a code line inside a list item comes out as two spaces *)
+Example C11_leading_tab_in_container_refuted :
+  core_html true false [45; 32; 96; 96; 96; 10; 32; 32; 9; 84; 97; 98; 10; 32; 32; 96; 96; 96; 10]%Z
+  = Ok [60; 117; 108; 62; 10; 60; 108; 105; 62; 60; 112; 114; 101; 62; 60; 99; 111; 100; 101; 62; 32; 32; 84; 97; 98; 10; 60; 47; 99; 111; 100; 101; 62; 60; 47; 112; 114; 101; 62; 10; 60; 47; 108; 105; 62; 10; 60; 47; 117; 108; 62; 10]%Z.
+Proof. vm_compute. reflexivity. Qed.
 
 Print Assumptions C11_code_piece_unescapes_to_raw.
 Print Assumptions C11_codespan_rule.
